@@ -28,6 +28,14 @@ def run(ctx):
             cuts = sorted(rnd.sample(range(1, n), rnd.randint(0, n - 1)))
             nrec = st.count("d")
             scs.append({"stream": st, "cuts": cuts, "errAt": rnd.randint(0, nrec)})
+    # the writer pauses: a sample of the scenarios whose cuts fall inside a record is run again with a silence after
+    # every write call (longer than any polling interval a reader might use; a second, longer one in the thorough tier)
+    import random
+    prnd = random.Random(ctx.seed + 1)
+    inside = [s for s in scs if any(c > 0 and s["stream"][c - 1] != "d" for c in s["cuts"])]
+    for pause, n in ((150, 64 if ctx.quick else 600), (1100, 0 if ctx.quick else 48)):
+        for s in prnd.sample(inside, min(n, len(inside))):
+            scs.append(dict(s, pause=pause))
     sp = ctx.path("scen.jsonl")
     with open(sp, "w") as f:
         for s in scs:
@@ -42,11 +50,13 @@ def run(ctx):
     for b in bad:
         r = b["rec"]
         ctx.violation("%s" % b["what"],
-                      "%s: stream %s cut at %s, call-back error at record %d: the ingester called back with %s and "
-                      "returned %s (%s)" % (b["what"], "".join(r["stream"]), r["cuts"], r["errAt"], r["calls"], r["ret"],
-                                            r["rets"]),
+                      "%s: stream %s cut at %s%s, call-back error at record %d: the ingester called back with %s and "
+                      "returned %s (%s)" % (b["what"], "".join(r["stream"]), r["cuts"],
+                                            " with %d ms of silence after every write" % r["pause"] if r.get("pause") else "",
+                                            r["errAt"], r["calls"], r["ret"], r["rets"]),
                       {"kind": "framing-scenario", "scenario": {"stream": r["stream"], "cuts": r["cuts"],
-                                                                 "errAt": r["errAt"]}, "observed": r})
+                                                                 "errAt": r["errAt"], "pause": r.get("pause", 0)},
+                       "observed": r})
     # binding self-test
     recs = [json.loads(l) for l in open(tp)]
     muts = []
